@@ -27,7 +27,7 @@ NONNEG = {
     '8889': ['2', '3', '4', '5', '6', '7', '8', '9', '1[0-3]', 'hsa_deduction'],
     '8606': ['[1-9]', '1[0-7]', '15[abc]', '19', '2[0-3]', 'taxable_amount'],
     '8959': ['[1-9]', '1[0-9]', '2[0-4]'],
-    '8995': ['[4-9]', '1[0-5]'],
+    '8995': ['[4-9]', '10', '1[2-5]'],      # not line 11: 'taxable income before the QBI deduction' is AGI minus deductions, which the form does not floor
     'nc_d-400': ['10a', '10b', '11', '12a', '15', '16', '17', '18', '19', '20[ab]', '21[abcd]', '22', '23', '24', '25', '26[a-e]', '27', '28', '29', '3[0-4]'],
     'nc_d-400_sa': ['*'],
     'nc_d-400_child_deduction_wkst': ['[3-5]'],
